@@ -7,7 +7,7 @@ from hypothesis.stateful import RuleBasedStateMachine, initialize, rule
 
 from vlib import gen, postsel
 from vlib.build import apply_real, build_real
-from vlib.harness import MachineSpec, RecordingMixin, Sub, Violation, call, unexpected
+from vlib.harness import call_with_timeout, MachineSpec, RecordingMixin, Sub, Violation, call, unexpected
 
 PROPERTY = "C11"
 RULE = ("Rule-based state machine holding one long-lived Sampler, QuickSampler and Analyzer. Reconfiguration "
@@ -126,8 +126,12 @@ class C11Machine(RecordingMixin, RuleBasedStateMachine):
     def compare(self, what, long_fn, fresh_fn, cmp):
         """Both must raise the same exception type, or give equal results."""
         try:
-            a = long_fn()
+            # generated sizes keep every call far below a second; a long-lived object that does not come back (for
+            # instance because a refused assignment left half of itself behind) is reported, not waited for
+            a = call_with_timeout(what, 60, long_fn)
             ea = None
+        except Violation:
+            raise
         except Exception as e:  # noqa: BLE001
             a, ea = None, e
         try:
@@ -258,6 +262,50 @@ class C11Machine(RecordingMixin, RuleBasedStateMachine):
         if self.prog is not None:
             self.prog = {"n": self.prog["n"], "ops": [*self.prog["ops"], op]}
         self.changed("edit-in-place-at")
+
+    def do_reject_assign(self, which, attr, k):
+        """An assignment the object refuses (it raises): its configuration is what it was before, so it keeps behaving
+        like a fresh object with the unchanged settings. Should such a value be accepted instead, the previous valid
+        value is assigned again and nothing is asserted about the attempt."""
+        import lightworks as lw
+        obj = self.sampler if which == "sampler" else self.quick
+        n = self.circ.input_modes
+        if n < 1:
+            return
+        values = {
+            "input_state": [lw.State([1] * (n + 1)), lw.State([0] * (n - 1)), [1] + [0] * (n - 1),
+                            lw.State([-1] + [1] * (n - 1)), None, lw.State([True] + [False] * (n - 1))],
+            "circuit": [None, "circuit", lw.State([1] * n)],
+            "source": ["source", 1],
+            "detector": ["detector", 1],
+            "backend": ["clifford", "no-such-backend", 3],
+            "post_select": ["rule", 3],
+            "photon_counting": ["yes", None, 1],
+        }[attr]
+        if not hasattr(type(obj), attr):
+            return
+        v = values[k % len(values)]
+        try:
+            setattr(obj, attr, v)
+        except Exception:  # noqa: BLE001
+            self.info_labels.add("rejected-assignment:" + attr)
+            self.changed("rejected-assignment")
+            return
+        # accepted: put the valid value back
+        if attr == "input_state":
+            obj.input_state = lw.State(list(self.state))
+        elif attr == "circuit":
+            obj.circuit = self.circ
+        elif attr == "source":
+            obj.source = __import__("lightworks").emulator.Source(**self.src)
+        elif attr == "detector":
+            obj.detector = __import__("lightworks").emulator.Detector(**self.det)
+        elif attr == "backend":
+            obj.backend = self.backend
+        elif attr == "post_select":
+            self.do_quick_cfg(self.ps, self.pc)
+        elif attr == "photon_counting":
+            obj.photon_counting = self.pc
 
     def do_edit_herald(self, n, a):
         c = self.circ
@@ -702,6 +750,18 @@ class C11Machine(RecordingMixin, RuleBasedStateMachine):
         self.step("wide_circuit", m=m, useed=useed, at=at)
         self.step("read", which=which)
         self.step("edit_at", pos=pos, refl=refl)
+        if sample:
+            self.step("sample", which=sample, seed=seed, n=20)
+        self.step("read", which=which)
+
+    @rule(which=st.sampled_from(["sampler", "quick"]),
+          attr=st.sampled_from(["input_state", "input_state", "circuit", "source", "detector", "backend", "post_select",
+                                "photon_counting"]), k=st.integers(0, 5),
+          sample=st.sampled_from(["N_inputs", "N_outputs", "quick.N_outputs", "quick.sample", "sampler.sample", None]),
+          seed=st.integers(0, 2 ** 20))
+    def r_rejected_assignment_then_use(self, which, attr, k, sample, seed):
+        """an assignment that raises and is caught by the caller, then the object is used on"""
+        self.step("reject_assign", which=which, attr=attr, k=k)
         if sample:
             self.step("sample", which=sample, seed=seed, n=20)
         self.step("read", which=which)
